@@ -744,21 +744,27 @@ impl<'a, 't> Gen<'a, 't> {
 pub fn gen_doc(t: &mut Tape, o: &Opts) -> (Doc, Spell) {
     let (ds, de) = *t.pick(&o.delims);
     let sp = Spell::new(ds, de);
-    let unit = t.s(&o.units).to_string();
     let words = words_for(&[(ds, de)]);
+    let bad = crate::pools::delim_chars(ds, de);
+    let doc = gen_doc_with(t, o, words, bad);
+    (doc, sp)
+}
+
+/// Generate a document whose text uses only `words` and avoids the characters in `bad`.
+pub fn gen_doc_with(t: &mut Tape, o: &Opts, words: Vec<&'static str>, bad: Vec<char>) -> Doc {
+    let unit = t.s(&o.units).to_string();
     let first_empty = t.chance(o.first_line_empty_pct);
     let n = 1 + t.below(o.max_top);
     let max_depth = o.max_depth;
     let base = if o.ragged { t.below(2) } else { 0 };
     let final_newline = !t.chance(30);
-    let bad = crate::pools::delim_chars(ds, de);
     let mut g = Gen { t, o, words, bad, unit: unit.clone(), next_id: 0, next_line: 0 };
     let mut nodes = vec![];
     if first_empty {
         nodes.push(Node::Line(String::new()));
     }
     nodes.extend(g.nodes(base, max_depth, n, false));
-    (Doc { nodes, final_newline, unit }, sp)
+    Doc { nodes, final_newline, unit }
 }
 
 pub fn gen_acfg(t: &mut Tape) -> ACfg {
